@@ -11,6 +11,15 @@ require (
 	golang.org/x/tools v0.29.0
 )
 
-require github.com/bytedance/gopkg v0.1.4 // indirect
+require (
+	github.com/bytedance/gopkg v0.1.4 // indirect
+	github.com/dlclark/regexp2 v1.11.0 // indirect
+	golang.org/x/mod v0.22.0 // indirect
+	golang.org/x/sync v0.11.0 // indirect
+	golang.org/x/text v0.14.0 // indirect
+	gopkg.in/yaml.v3 v3.0.1 // indirect
+)
 
 replace github.com/cloudwego/thriftgo => /repo
+
+replace golang.org/x/sync v0.11.0 => golang.org/x/sync v0.10.0
